@@ -12,6 +12,9 @@ import (
 )
 
 type Node struct {
+	echoLate []*Payload // own (pre)commits of the previous incarnation that may still come back
+	ownSent []*Payload // everything this (amnesia) validator ever broadcast, all incarnations
+
 	s      *Sim
 	id     int
 	ident  int
@@ -227,6 +230,9 @@ func (n *Node) boot() {
 	ts := n.tip().TS
 	s.tracef("%s BOOT inc=%d tip=%d", n, n.inc, n.tip().Idx)
 	n.call(&Step{Op: OpStart, Arg: ts}, func() { n.d.Start(ts) })
+	if n.inc > 1 && n.kind == FAmnesia && !s.manual {
+		n.scheduleEcho()
+	}
 }
 
 func (n *Node) crash() {
@@ -333,6 +339,15 @@ func (n *Node) call(st *Step, fn func()) {
 	}
 	n.crashAfterSends = -1
 	n.crashInProcess = 0
+	if len(n.echoLate) > 0 && st.Op != OpStart && st.PostBI == st.PreBI && st.PostV > st.PreV && !s.postGST() {
+		for _, p := range n.echoLate {
+			if p.H == st.PostBI && s.tape.Chance(SFault, 1, 2) {
+				s.fault("echo_of_own_commit_after_view_change")
+				s.after(s.tape.Range(SFault, 0, 4)*s.sc.LatBase, &Event{Kind: EvDeliver, Node: n.id, From: n.id, P: p})
+			}
+		}
+		n.echoLate = n.echoLate[:0]
+	}
 	if s.sc.StallPM > 0 && !s.postGST() && s.tape.Chance(n.stream(SFault), s.sc.StallPM, 1000) {
 		n.stallUntil = s.now + s.tape.Range(n.stream(SFault), 1, 12)*int64(s.sc.TPB)/4
 		s.fault("stall")
@@ -342,8 +357,54 @@ func (n *Node) call(st *Step, fn func()) {
 
 func (n *Node) scheduleRestart() {
 	s := n.s
+	if s.tape.Chance(SFault, 1, 5) {
+		// crash-stop: this (budgeted faulty) validator took part, created in-flight state and
+		// stays silent from now on
+		s.fault("crash_stop")
+		return
+	}
 	d := s.tape.Range(SFault, 0, 12) * int64(s.sc.TPB) / 4
+	if s.sc.LongRestart && s.tape.Chance(SFault, 1, 2) {
+		d *= 3
+	}
 	s.after(d, &Event{Kind: EvRestart, Node: n.id})
+}
+
+// scheduleEcho models gossip: what a validator broadcast before it lost its state is still
+// being relayed and reaches the restarted validator itself like any other payload.
+func (n *Node) scheduleEcho() {
+	s := n.s
+	h := n.tip().Idx + 1
+	var own []*Payload
+	for _, p := range n.ownSent {
+		if p.H == h {
+			own = append(own, p)
+		}
+	}
+	if len(own) == 0 || !s.tape.Chance(SFault, 1, 2) {
+		return
+	}
+	// its (pre)commit may also come back later, right after the node was taken to a higher view
+	n.echoLate = n.echoLate[:0]
+	for _, p := range own {
+		if p.T == dbft.CommitType || p.T == dbft.PreCommitType {
+			n.echoLate = append(n.echoLate, p)
+		}
+	}
+	if len(own) > 8 {
+		own = own[len(own)-8:]
+	}
+	for _, p := range own {
+		if s.tape.Chance(SFault, 1, 3) {
+			continue
+		}
+		d := s.tape.Range(SFault, 0, 16) * int64(s.sc.TPB) / 4
+		if s.sc.GST > 0 && s.now+d >= s.sc.GST {
+			continue
+		}
+		s.fault("echo_of_own_payload_after_restart")
+		s.after(d, &Event{Kind: EvDeliver, Node: n.id, From: n.id, P: p})
+	}
 }
 
 func (st *Step) describe() string {
@@ -653,6 +714,9 @@ func (n *Node) cbBroadcast(m dbft.ConsensusPayload[Hash]) {
 	p.sign(n.priv)
 	n.facts.addDelivered(p) // own payloads count as held by the node
 	n.out(Out{Kind: OBroadcast, P: p})
+	if n.kind == FAmnesia {
+		n.ownSent = append(n.ownSent, p)
+	}
 	if n.crashing {
 		return
 	}
